@@ -1,4 +1,9 @@
-pub mod rand { pub mod rngs { use vstd::prelude::*; pub struct OsRng; } }
+pub mod rand {
+    // stand-ins for rand_core's marker traits and the OS generator
+    pub trait RngCore {}
+    pub trait CryptoRng {}
+    pub mod rngs { use vstd::prelude::*; pub struct OsRng; impl super::RngCore for OsRng {} impl super::CryptoRng for OsRng {} }
+}
 // ---------------------------------------------------------------------------------------
 // chain_crypto.rs — crate::crypto (crypto/mod.rs, crypto/ed25519.rs, crypto/p256.rs)
 // ---------------------------------------------------------------------------------------
@@ -257,10 +262,10 @@ pub mod crypto {
         fn eq(&self, other: &PublicKey) -> bool { unimplemented!() }
     }
 
-    // ORACLE (C15, "fresh random next key per block"): the key pair the operating-system RNG yields. The RNG is modelled as a
+    // ORACLE (C15, "fresh random next key per block"): the key pair a random generator yields, as a function of the generator. The RNG is modelled as a
     // name, NOT as a source of entropy: nothing about freshness, uniqueness or unpredictability is claimed, only WHICH key
     // a function uses.
-    pub uninterp spec fn rng_keypair(algorithm: Algorithm) -> KeyPair;
+    pub uninterp spec fn rng_keypair<T>(algorithm: Algorithm, rng: T) -> KeyPair;
     impl KeyPair {
         pub open spec fn wf(self) -> bool {
             match self { KeyPair::Ed25519(k) => k.wf(), KeyPair::P256(k) => k.wf() }
@@ -268,8 +273,8 @@ pub mod crypto {
         // ASSUMED (crypto/mod.rs new_with_rng + rand): key generation from the OS RNG returns a well-formed key pair of the
         // requested algorithm
         #[verifier::external_body]
-        pub fn new_with_rng(algorithm: Algorithm, rng: &mut crate::rand::rngs::OsRng) -> (r: KeyPair)
-            ensures r == rng_keypair(algorithm), r.wf(), (algorithm is Ed25519 <==> r is Ed25519)
+        pub fn new_with_rng<T: crate::rand::RngCore + crate::rand::CryptoRng>(algorithm: Algorithm, rng: &mut T) -> (r: KeyPair)
+            ensures r == rng_keypair::<T>(algorithm, *old(rng)), r.wf(), (algorithm is Ed25519 <==> r is Ed25519)
         { unimplemented!() }
         //@extract biscuit-auth/src/crypto/mod.rs :: impl KeyPair :: fn from
         //@ ensures from: r == kp_of(*key)
